@@ -384,8 +384,26 @@ where
         x.sort_by(|t1, t2| t1.0.partial_cmp(&t2.0).unwrap());
         let mut x: Vec<Centroid> = x.drain(..).map(|t| t.1).collect();
 
-        let s: f64 = x.iter().map(|c| c.count).sum();
+        // Weights are accumulated with a compensated (Neumaier) sum: when a few centroids carry almost all of the
+        // weight, plain `f64` accumulation stops registering the light ones (1e16 + 1 == 1e16), the quantile position
+        // `q_0` stops advancing and the light tail would never be fused.
+        fn acc(sum: &mut f64, comp: &mut f64, v: f64) {
+            let t = *sum + v;
+            if sum.abs() >= v.abs() {
+                *comp += (*sum - t) + v;
+            } else {
+                *comp += (v - t) + *sum;
+            }
+            *sum = t;
+        }
+        let (mut s_sum, mut s_comp) = (0f64, 0f64);
+        for c in &x {
+            acc(&mut s_sum, &mut s_comp, c.count);
+        }
+        let s: f64 = s_sum + s_comp;
 
+        // weight of the centroids already emitted
+        let (mut w_sum, mut w_comp) = (0f64, 0f64);
         let mut q_0 = 0.;
         let mut q_limit = self.scale_function.f_inv(
             self.scale_function.f(q_0, self.n_samples) + 1.,
@@ -395,11 +413,13 @@ where
         let mut result = vec![];
         let mut current = x[0].clone();
         for next in x.drain(1..) {
-            let q = q_0 + (current.count + next.count) / s;
+            // a quantile: clamp what rounding may push beyond 1
+            let q = ((w_sum + (w_comp + current.count + next.count)) / s).min(1.);
             if q <= q_limit {
                 current = current.fuse(&next);
             } else {
-                q_0 += current.count / s;
+                acc(&mut w_sum, &mut w_comp, current.count);
+                q_0 = ((w_sum + w_comp) / s).min(1.);
                 q_limit = self.scale_function.f_inv(
                     self.scale_function.f(q_0, self.n_samples) + 1.,
                     self.n_samples,
